@@ -29,14 +29,10 @@ theorem shipped_unpack_no_panic (name : String) (spec : MsgSpec) (_ : (name, spe
     (src : Bytes) : spec.unpack src ≠ .panic :=
   C04.msg_unpack_no_panic spec src
 
-/-- the shipped specs whose MTI and bitmap definitions are coherent and whose ids are distinct -/
-def restrictable : List (String × MsgSpec) := shippedSpecs.filter (fun p => p.2.headOK)
-
 /-- **the well-formed part of every restrictable shipped spec is a coherent spec** -/
 theorem shipped_restrict_coherent (name : String) (spec : MsgSpec) (h : (name, spec) ∈ restrictable) :
-    spec.restrict.coherent = true := by
-  have := (List.mem_filter.mp h).2
-  exact MsgSpec.restrict_coherent spec this
+    spec.restrict.coherent = true :=
+  Gen.shipped_restrict_coherent name spec h
 
 /-- **C01, shipped specs restricted to their well-formed fields**: Pack then Unpack reproduces
 the canonical content, consumes exactly the produced bytes whatever follows, and re-packs to the
